@@ -410,3 +410,23 @@ Theorem C17_app_partial_buffer_is_permanent : forall fx fuel ac s a now,
              next_seq s' = next_seq s /\ send_buffer s' = send_buffer s /\ finished s' = false.
 Proof. exact app_partial_buffer_is_permanent. Qed.
 Print Assumptions C17_app_partial_buffer_is_permanent.
+
+(* No application configured -- no arrival_dist, no size_dist, no finish_time, start_time 0 (flow.size as in
+   the plain model: 0 = unbounded, else the last write is capped at size - next_seq) -- and run() of the
+   application layer (astep on AWake, i.e. arun) IS on_wake of Tcp/Sender.v: from ANY sender state (so in
+   particular every state the plain sender reaches) and any application state without a pending sleep, a
+   resumption by the store yields the same successor state, the same emissions or the same error, for
+   every fuel above a bound; the application state is only marked started.  The theorems above about
+   on_wake/step/run (C17_send_guard, C17_window_respected, ...) and C16's loop model, which uses on_wake,
+   are therefore about the same run() as the C17_app_* theorems. *)
+Theorem C17_app_plain_is_on_wake : forall fx ac s a now,
+  ac_arr ac = None -> ac_siz ac = None -> ac_finish ac = None -> Qeq_bool (ac_start ac) 0 = true ->
+  0 < mss (ac_cfg ac) -> ap_sleep a = None ->
+  exists fuel0, forall fuel, (fuel0 <= fuel)%nat ->
+    astep fx fuel ac s a (AWake now) =
+    match on_wake (ac_cfg ac) s with
+    | Ok s' o => AOk s' (mkapp (ap_last a) None true (ap_ai a) (ap_si a)) o
+    | Raise x => ARaise x
+    end.
+Proof. exact app_plain_is_on_wake_explicit. Qed.
+Print Assumptions C17_app_plain_is_on_wake.
